@@ -144,7 +144,12 @@ void run(vh::Case &c)
   vsh::ByteSource src(c.rd, 40);
   vsched::Options opt;
   opt.step_budget = 3000000;
-  c.note(std::string(" schedule-mode=") + src.mode_name() + "\n");
+  if (cfg.aligned)
+  {
+    opt.timer_slack_ns = 30000;
+    c.tag("export-latency-equals-a-flush-timeout");
+  }
+  c.note(std::string(" schedule-mode=") + src.mode_name() + (cfg.aligned ? " timer-slack=30us" : "") + "\n");
   vsched::RunStats stats = vsched::run(&src, opt, vsh::fatal, [&](vsched::Scheduler &s) {
     std::unique_ptr<sdkm::MeterContext> ctx(new sdkm::MeterContext(
         std::unique_ptr<sdkm::ViewRegistry>(new sdkm::ViewRegistry), otel::sdk::resource::Resource::Create({})));
